@@ -13,14 +13,15 @@
 use crate::c16::{bits, log_uniform, phase, pitch, sign, spoint, unbits, uniform};
 use crate::util::*;
 use alpha_g_physics::reconstruction::{
-    cluster_spacepoints, find_vertices, verif_helix_at, verif_helix_closest_t, Cluster, Track,
+    cluster_spacepoints, find_vertices, verif_helix_at, verif_helix_closest_t, verif_helix_closest_to_beamline, Cluster,
+    Track,
     TryTrackFromClusterError,
 };
 use alpha_g_physics::SpacePoint;
 use std::f64::consts::PI;
 use uom::si::length::meter;
 
-type P3 = [f64; 3];
+pub type P3 = [f64; 3];
 
 fn in_range(t: f64) -> bool {
     t >= -PI && t <= PI
@@ -70,7 +71,7 @@ fn vertex_defect(tracks: Vec<Track>) -> Option<String> {
     None
 }
 
-fn points_of(v: &[P3]) -> Vec<SpacePoint> {
+pub fn points_of(v: &[P3]) -> Vec<SpacePoint> {
     v.iter().map(|p| spoint(p[0], p[1], p[2])).collect()
 }
 
@@ -144,7 +145,7 @@ fn vertex_only(trs: Vec<[f64; 8]>) -> (String, String) {
     r.unwrap_or_else(|| ("fails panic".to_string(), "panic".to_string()))
 }
 
-fn parse_floats(f: &[&str]) -> Option<Vec<f64>> {
+pub fn parse_floats(f: &[&str]) -> Option<Vec<f64>> {
     f.iter().map(|s| unbits(s)).collect()
 }
 
@@ -364,7 +365,7 @@ fn random_points(r: &mut Rng, n: usize) -> Vec<P3> {
 }
 
 /// one point set of the quantifier; returns the family label
-fn family(r: &mut Rng, n: usize) -> (Vec<P3>, &'static str) {
+pub fn family(r: &mut Rng, n: usize) -> (Vec<P3>, &'static str) {
     let eps = perturbation(r);
     match r.below(12) {
         0 | 1 | 2 => {
@@ -439,7 +440,7 @@ fn size(r: &mut Rng, max: usize) -> usize {
     }
 }
 
-fn case_points(tag: &str, pts: &[P3]) -> String {
+pub fn case_points(tag: &str, pts: &[P3]) -> String {
     let mut s = format!("{tag} {}", pts.len());
     for p in pts {
         for x in p {
@@ -451,7 +452,7 @@ fn case_points(tag: &str, pts: &[P3]) -> String {
 }
 
 /// a track the vertex finder will consider: passes within a few cm of the beamline
-fn track_params(r: &mut Rng) -> [f64; 8] {
+pub fn track_params(r: &mut Rng) -> [f64; 8] {
     let rad = match r.below(6) {
         0 => r.pick(&[0.03, 5.0]),
         _ => log_uniform(r, 0.03, 5.0),
@@ -517,12 +518,18 @@ pub fn run(tier: &str, seed: u64, s: &mut Sink) {
         let k = r.range(0, 8) as usize;
         let mut trs: Vec<[f64; 8]> = Vec::new();
         let shared_z = uniform(&mut r, -1.0, 1.0);
-        let tie = r.below(4);
+        let tie = r.below(6);
         for i in 0..k {
             let mut t = track_params(&mut r);
             match tie {
                 0 if i > 0 && r.chance(1, 2) => t = trs[r.below(i as u64) as usize], // identical tracks
                 1 => t[2] = shared_z,                                                 // same z0
+                3 | 4 => {
+                    // same z of closest approach to the beamline (exactly, or within 2 cm): a common vertex
+                    let zb = verif_helix_closest_to_beamline([t[0], t[1], t[2], t[3], t[4], t[5]]).z.get::<meter>();
+                    let dz = if tie == 3 { 0.0 } else { uniform(&mut r, -0.02, 0.02) };
+                    t[2] = (t[2] - zb + shared_z + dz).clamp(-3.0, 3.0);
+                }
                 2 if i > 0 => t[3] = trs[0][3],                                       // equal radii (ties in the radius sums)
                 _ => {}
             }
